@@ -15,10 +15,11 @@ import (
 
 // genCtx is shared by all cases of one gensim check.
 type genCtx struct {
-	prop string
-	tier string
-	bins *genBinaries
-	kfs  []KnownFinding
+	prop     string
+	tier     string
+	bins     *genBinaries
+	kfs      []KnownFinding
+	deadline time.Time // wall-clock budget of the batch: long per-case enumerations stop early (and say so) once it has passed
 }
 
 // known returns the listed (not fixed) finding that v is an instance of.
@@ -117,6 +118,7 @@ func runGenCheck(o checkOpts, level string, quick, thorough genBudget, rule stri
 			b.wall = d
 		}
 	}
+	ctx.deadline = time.Now().Add(b.wall)
 	transparencyCheck(ctx)
 	// listed findings: run each committed reproducer through the oracle
 	directedHits := map[string]int{}
